@@ -1,8 +1,8 @@
 import HappyProofs.C08.PipeWInv
 /-!
-`WInv` is preserved by every admissible delivery of the repaired protocol (any `ConcurrencyModel`,
-any list queue); `used ≤ limit` is preserved by every delivery of every variant as long as the
-limit is not lowered.
+`WInv` is preserved by every admissible delivery of the admission proposal (`admission` and `wake` on;
+any `ConcurrencyModel`, any list queue); `used ≤ limit` is preserved by every delivery of every
+config as long as the limit is not lowered.
 -/
 namespace HappyModel.C08.PipeW
 
@@ -18,17 +18,17 @@ def Adm (c : WCfg) (w0 : Nat) (s : WSt) (a : Act) : Prop :=
   (∀ it, a = .arr it → c.kind = .fifo ∨ wOf c it = w0)
 
 /-- `Adm` by cases on the action (the decidable form) -/
-def admD (c : WCfg) (w0 : Nat) (s : WSt) : Act → Prop
+def admC (c : WCfg) (w0 : Nat) (s : WSt) : Act → Prop
   | .disp => s.works = []
   | .limit n => newLimit c s n < s.limit → s.delivers = [] ∧ s.works = []
   | .arr it => c.kind = .fifo ∨ wOf c it = w0
   | _ => True
 
-theorem adm_iff (c : WCfg) (w0 : Nat) (s : WSt) (a : Act) : Adm c w0 s a ↔ admD c w0 s a := by
+theorem adm_iff (c : WCfg) (w0 : Nat) (s : WSt) (a : Act) : Adm c w0 s a ↔ admC c w0 s a := by
   unfold Adm
-  cases a <;> simp [admD]
+  cases a <;> simp [admC]
 
-instance instDecAdmD (c : WCfg) (w0 : Nat) (s : WSt) : (a : Act) → Decidable (admD c w0 s a)
+instance instDecAdmC (c : WCfg) (w0 : Nat) (s : WSt) : (a : Act) → Decidable (admC c w0 s a)
   | .disp => inferInstanceAs (Decidable (s.works = []))
   | .limit n => inferInstanceAs (Decidable (newLimit c s n < s.limit → s.delivers = [] ∧ s.works = []))
   | .arr it => inferInstanceAs (Decidable (c.kind = .fifo ∨ wOf c it = w0))
@@ -41,8 +41,10 @@ instance instDecAdmD (c : WCfg) (w0 : Nat) (s : WSt) : (a : Act) → Decidable (
 instance instDecAdm (c : WCfg) (w0 : Nat) (s : WSt) (a : Act) : Decidable (Adm c w0 s a) :=
   decidable_of_iff _ (adm_iff c w0 s a).symm
 
+/-- the design suggestion: the admission test travels with the poll, a raised limit wakes the driver -/
 structure Setting (c : WCfg) : Prop where
-  hv : c.variant = .repaired
+  ha : c.admission = true
+  hw : c.wake = true
 
 /-- every prefix of the schedule is admissible -/
 def Sched (c : WCfg) (w0 : Nat) : WSt → List Act → Prop
@@ -104,7 +106,7 @@ theorem notify_inv {c : WCfg} {w0 : Nat} {s : WSt} (h : WInv c w0 s) : WInv c w0
   · exact h
   · exact pollIfReady_inv ⟨h.rt, h.wf, h.res, h.act, h.rej, h.count, h.uni⟩
 
-theorem poll_inv {c : WCfg} {w0 : Nat} {s : WSt} (hv : c.variant = .repaired) (h : WInv c w0 s) :
+theorem poll_inv {c : WCfg} {w0 : Nat} {s : WSt} (ha : c.admission = true) (h : WInv c w0 s) :
     WInv c w0 (stepPoll c s).1 := by
   obtain ⟨⟨rt, wf, res, act, rej, count, uni⟩, strand⟩ := h
   by_cases hp : s.nPoll = 0
@@ -121,7 +123,7 @@ theorem poll_inv {c : WCfg} {w0 : Nat} {s : WSt} (hv : c.variant = .repaired) (h
       simp only
       by_cases had : admits c s it = true
       · simp only [had, if_true]
-        have hfit : s.used + wOf c it ≤ s.limit := by simpa [admits, hv, fits] using had
+        have hfit : s.used + wOf c it ≤ s.limit := by simpa [admits, ha, fits] using had
         have hm := pick_mem hit
         have hlen := List.length_erase_of_mem hm
         have hpos := List.length_pos_of_mem hm
@@ -144,7 +146,7 @@ theorem poll_inv {c : WCfg} {w0 : Nat} {s : WSt} (hv : c.variant = .repaired) (h
         · dsimp only; omega
         · intro x hx hfit; dsimp only at hx hfit
           rw [hit] at hx; cases hx
-          have : admits c s it = true := by simpa [admits, hv, fits] using hfit
+          have : admits c s it = true := by simpa [admits, ha, fits] using hfit
           exact absurd this had
 
 theorem deliver_inv {c : WCfg} {w0 : Nat} {s : WSt} (x : Option Nat) (h : WInv c w0 s) :
@@ -254,7 +256,7 @@ theorem fin_inv {c : WCfg} {w0 : Nat} {s : WSt} (i : Nat) (h : WInv c w0 s) :
     · dsimp only; omega
     · dsimp only; simp only [hlen]; omega
 
-theorem limit_inv {c : WCfg} {w0 : Nat} {s : WSt} (hv : c.variant = .repaired) (n : Nat)
+theorem limit_inv {c : WCfg} {w0 : Nat} {s : WSt} (hw : c.wake = true) (n : Nat)
     (ha : newLimit c s n < s.limit → s.delivers = [] ∧ s.works = []) (h : WInv c w0 s) :
     WInv c w0 (stepLimit c s n).1 := by
   obtain ⟨⟨rt, wf, res, act, rej, count, uni⟩, strand⟩ := h
@@ -263,7 +265,7 @@ theorem limit_inv {c : WCfg} {w0 : Nat} {s : WSt} (hv : c.variant = .repaired) (
     by_cases hl : newLimit c s n < s.limit
     · obtain ⟨h1, h2⟩ := ha hl; simp [h1, h2] at hx
     · have := res x hx; omega
-  simp only [stepLimit, hv]
+  simp only [stepLimit, hw, eq_self, true_and]
   split
   · refine ⟨⟨rt, wf, hres, act, rej, count, uni⟩, ?_⟩
     intro _ _ _; dsimp only; omega
@@ -284,12 +286,12 @@ theorem step_inv {c : WCfg} {w0 : Nat} {s : WSt} (st : Setting c) (a : Act) (ha 
   cases a with
   | arr it => exact arr_inv it (ha.2.2 it rfl) h
   | notify => exact notify_inv h
-  | poll => exact poll_inv st.hv h
+  | poll => exact poll_inv st.ha h
   | deliver x => exact deliver_inv x h
   | work i => exact work_inv i h
   | disp => exact disp_inv (ha.1 rfl) h
   | fin i => exact fin_inv i h
-  | limit n => exact limit_inv st.hv n (ha.2.1 n rfl) h
+  | limit n => exact limit_inv st.hw n (ha.2.1 n rfl) h
 
 theorem final_inv {c : WCfg} {w0 : Nat} (st : Setting c) : ∀ (as : List Act) (s : WSt), Sched c w0 s as →
     WInv c w0 s → WInv c w0 (final c s as)
@@ -304,7 +306,7 @@ theorem sched_take {c : WCfg} {w0 : Nat} : ∀ (n : Nat) (as : List Act) (s : WS
   | _ + 1, [], _, _ => trivial
   | n + 1, _ :: as, _, h => ⟨h.1, sched_take n as _ h.2⟩
 
-/-! ### `used ≤ limit` along schedules that never lower the limit (every config and variant) -/
+/-! ### `used ≤ limit` along schedules that never lower the limit (every config) -/
 
 def NoLowerAct (c : WCfg) (s : WSt) : Act → Prop
   | .limit n => s.limit ≤ newLimit c s n
